@@ -259,3 +259,18 @@ def canary(ob):
 
 
 canary.canary = True
+
+
+def bounded_checks(tier, seed, repo):
+    """floating-point RANGE assumption of the proof (floats are reals): bounded run-time check on scaled inputs, never counted as proved"""
+    import json, os, subprocess
+    here = os.path.dirname(os.path.dirname(os.path.abspath(__file__)))
+    py = os.path.join(here, '.venv312', 'bin', 'python')
+    if not os.path.exists(py):
+        subprocess.run(['sh', os.path.join(here, 'setup.sh')], capture_output=True, text=True, timeout=600)
+    env = dict(os.environ, PYTHONPATH=repo, PYTHONWARNINGS='ignore')
+    p = subprocess.run([py, os.path.join(here, 'runtime', 'fp_range.py'), 'C02', '--tier', tier, '--seed', str(seed)], env=env, capture_output=True, text=True, timeout=900)
+    lines = [l for l in p.stdout.splitlines() if l.startswith('RMODE-RESULT ')]
+    if not lines:
+        return [{'name': 'fp_range.C02', 'error': (p.stdout + p.stderr)[-800:], 'evaluations': 0, 'failures': []}]
+    return [json.loads(lines[-1][len('RMODE-RESULT '):])]
